@@ -79,3 +79,16 @@ SPECS['C01'] = {
     'thorough': [J('c01', 'fast', srcs=SREF), J('c01', 'asan', srcs=SREF), J('c01', 'amd64', srcs=SREF)],
     'budget': {'quick': 150, 'thorough': 1500},
 }
+
+SPECS['C02'] = {
+    'level': 'exploration',
+    'technique': 'bounded exhaustive enumeration (all 255 plaintext lengths x keys x contents x interfaces, every 2-cut of short messages, complete 1-deviation neighbourhood of DER ciphertexts, C1 substitution set, all ordered key pairs for ECDH) on the real code; reference model = OpenSSL BN/EC equations + OpenSSL EVP SM2',
+    'claim': 'For the key set D and scripted nonces every encryption interface produces exactly the GB/T 32918.4 ciphertext of the nonce drawn for every plaintext length 1..255, it decrypts through every interface and under OpenSSL (and vice versa); every bit flip, truncation, extension, non-canonical form and C1 substitution of a valid ciphertext is accepted iff the reference accepts; ECDH equals d_A*d_B*G for all ordered key pairs and refuses invalid peer shares.',
+    'trusted': 'OpenSSL BN/EC/SM3/X9.63-KDF and EVP SM2; harness strict-DER reader/writer (der.h); scripted entropy shim',
+    'rule': 'roundtrip: 5 keys x lengths 0..256 x 3 contents x {sm2_encrypt, sm2_do_encrypt, do_decrypt, sm2_decrypt, streaming decrypt, streaming encrypt in every 2-cut for len<=40, fixlen x3, OpenSSL interop both ways}; malformed: per (key,length in {1,16,255}) every bit flip, every prefix, one-byte extensions, 7 C1 substitutions, 10 non-canonical forms, 4 wrong keys; ecdh: 5x5 ordered pairs x {do_ecdh, sm2_ecdh uncompressed/compressed, symmetry}, 8 invalid peer shares. distinct = parameter tuple / offered byte string.',
+    'bound': {'quick': 'neighbourhoods for key typical (3 lengths) and d=1 (1 length)', 'thorough': 'all keys x 3 lengths'},
+    'assumptions': ['keys/nonces/contents outside the sets not covered; the KDF-all-zero retry cannot be forced'],
+    'quick': [J('c02', 'fast', srcs=SREF), J('c02', 'asan', srcs=SREF, deadline=110)],
+    'thorough': [J('c02', 'fast', srcs=SREF), J('c02', 'asan', srcs=SREF), J('c02', 'amd64', srcs=SREF)],
+    'budget': {'quick': 150, 'thorough': 1500},
+}
